@@ -296,10 +296,7 @@ def dispatch (cmd : String) (a : Args) : Option String :=
     | none => some "err parse"
   | "wire.group" =>
     match circuitOf a with
-    | some c =>
-      match c.groupOneQubitGates (regList (get a "order")) with
-      | .ok c' => some s!"ok {showCircuit c'}"
-      | .error e => some (showErr e)
+    | some c => some s!"ok {showCircuit (c.groupOneQubitGates (regList (get a "order")))}"
     | none => some "err parse"
   | "wire.assign" =>
     match circuitOf a with
